@@ -330,6 +330,12 @@ func poolConfigs(prop string, thorough bool) (cfgs []poolCfg, depth int) {
 				}
 			}
 		}
+		// non-initial root: the home came back through a refresh take-over (not through a report of its
+		// own) while a stand-in was in use; found by the thorough tier's root search as an oracle bug
+		hr := poolCfg{Name: "C08 pool=3 wm=100 refresh root=home-recovered-by-swap", Min: 3, Max: 3, WM: 100, Fallback: true, RefCalls: 1, RefMs: 1, Depth: 3,
+			Setup: append(readyPool(3), "pick(bind,,L,g)", "done(0,ok:k1)", "pick(bound,k1,L,g,d1)", "state(0,IDLE)", "pick(bound,k1,L,g,d1)", "adv(2)", "done(0,cde)", "state(3,CONNECTING)", "state(3,READY)")}
+		hr.A = alphabet{States: "basic", Cmds: []string{"bound", "plain"}, Keys: []string{"k1"}, Gens: []string{"L"}, Ctx: []string{"g,d1"}, Done: []string{"ok"}, MaxOpen: 4, MaxSC: 6}
+		add(hr)
 		// keyed calls on superseded pickers (a stale READY snapshot must not choose the stand-in)
 		sp := poolCfg{Name: "C08 pool=3 stale-pickers", Min: 3, Max: 3, WM: 100, Fallback: true,
 			Setup: append(readyPool(3), "pick(bind,,L,g)", "done(0,ok:k1)")}
@@ -483,6 +489,16 @@ func replayPool(c *vsched.RunCtx, prop string, cfgs []poolCfg) {
 		for i := range other {
 			if other[i].Name == v.Config {
 				cfg = &other[i]
+			}
+		}
+	}
+	if cfg == nil && strings.HasSuffix(v.Config, " [root search]") {
+		// found by the root search itself (reduced alphabet, same setup as its base configuration)
+		for k := range cfgs {
+			if cfgs[k].Name == strings.TrimSuffix(v.Config, " [root search]") {
+				x := cfgs[k]
+				x.Name = v.Config
+				cfg = &x
 			}
 		}
 	}
